@@ -37,70 +37,311 @@ Proof.
   split; [vm_compute; reflexivity|]. split; [vm_compute; reflexivity|]. split; vm_compute; reflexivity.
 Qed.
 
-(* ---- the part that is idempotent (in fact the identity): no mixins and no collector ---- *)
-Fixpoint sorted_from {V} (lo:positive) (l:list (positive * V)) : bool :=
-  match l with
+(* ---- a module every application of which is left alone by one step is left alone by the whole pass ---- *)
+Lemma post_go_fixed cn todo : forall done,
+  (forall n a, In (n, a) todo -> step_app cn (done ++ todo) a = Some a) -> post_go cn done todo = Some (done ++ todo).
+Proof.
+  induction todo as [|[n a] r IH]; intros done H.
+  - cbn. rewrite app_nil_r. reflexivity.
+  - cbn [post_go]. rewrite (H n a (or_introl eq_refl)).
+    replace (done ++ (n, a) :: r) with ((done ++ [(n, a)]) ++ r) by (rewrite <- app_assoc; reflexivity).
+    apply IH. intros n' a' Hin. rewrite <- app_assoc. cbn [List.app]. apply (H n' a'). right. exact Hin.
+Qed.
+
+Lemma post_fixed cn m : (forall n a, In (n, a) m -> step_app cn m a = Some a) -> post cn m = Some m.
+Proof. intros H. unfold post. apply (post_go_fixed cn m []). exact H. Qed.
+
+(* ================================================================ idempotence under the stated condition *)
+Require Import Verif.Codec.AssocProps Verif.Codec.CollectorProps.
+From Coq Require Import NArith Lia.
+
+(* ---- collector: a fixed point after one application ---- *)
+Lemma collector_idem cn eps e1 :
+  coll_cond cn eps = true -> forallb (fun p => ep_sorted (snd p)) eps = true ->
+  collector cn eps = Some e1 -> collector cn e1 = Some e1.
+Proof.
+  intros Hc Hso H. rewrite (collector_closed_form cn eps Hc) in H. injection H as <-.
+  unfold coll_result. pose proof Hc as Hc'. unfold coll_cond in Hc'.
+  apply andb_true_iff in Hc'. destruct Hc' as [Hc1 Hc3]. apply andb_true_iff in Hc1. destruct Hc1 as [Hs Hnb].
+  destruct (lookup cn eps) as [c|] eqn:L.
+  - set (cs := e_stmts c) in *.
+    assert (Lc : lookup cn (cf_eps cs cn eps) = Some (cf_ep cs cn cn c)) by (unfold cf_eps; rewrite lookup_map_kv, L; reflexivity).
+    assert (Est : e_stmts (cf_ep cs cn cn c) = cs) by (unfold cf_ep; cbn; rewrite Pos.eqb_refl; reflexivity).
+    assert (Hc2 : coll_cond cn (cf_eps cs cn eps) = true).
+    { unfold coll_cond. rewrite Lc, Est. unfold cf_eps at 1. rewrite sorted_map_kv, Hs, (eps_no_bad_cf cs cn eps Hnb). exact Hc3. }
+    rewrite (collector_closed_form cn _ Hc2). unfold coll_result. rewrite Lc, Est. f_equal. apply cf_eps_idem, Hso.
+  - apply collector_closed_form in Hc. unfold coll_result in Hc. rewrite L in Hc. exact Hc.
+Qed.
+
+(* ---- mixins ---- *)
+Definition covers {V} (src dst:list (positive * V)) : Prop := forall k, lookup k src <> None -> lookup k dst <> None.
+
+Lemma lookup_add_missing {V} (src:list (positive * V)) : forall dst k,
+  lookup k (add_missing src dst) = match lookup k dst with Some v => Some v | None => lookup k src end.
+Proof.
+  induction src as [|[k0 v0] r IH]; intros dst k; cbn [add_missing].
+  - destruct (lookup k dst); reflexivity.
+  - rewrite IH. cbn [lookup]. destruct (lookup k0 dst) as [w|] eqn:E0.
+    + destruct (lookup k dst) eqn:Ek; [reflexivity|]. destruct (Pos.eqb k k0) eqn:E; [|reflexivity].
+      apply Pos.eqb_eq in E. subst. congruence.
+    + rewrite lookup_put. destruct (Pos.eqb k k0) eqn:E.
+      * apply Pos.eqb_eq in E. subst. rewrite E0. reflexivity.
+      * reflexivity.
+Qed.
+
+Lemma add_missing_covered {V} (src dst:list (positive * V)) : covers src dst -> add_missing src dst = dst.
+Proof.
+  revert dst. induction src as [|[k0 v0] r IH]; intros dst H; [reflexivity|]. cbn [add_missing].
+  destruct (lookup k0 dst) eqn:E.
+  - apply IH. intros k Hk. apply H. cbn. destruct (Pos.eqb k k0); [discriminate|exact Hk].
+  - exfalso. apply (H k0); [cbn; rewrite Pos.eqb_refl; discriminate|exact E].
+Qed.
+
+Lemma covers_add_src {V} (src dst:list (positive * V)) : covers src (add_missing src dst).
+Proof. intros k H. rewrite lookup_add_missing. destruct (lookup k dst); [discriminate|exact H]. Qed.
+Lemma covers_add_dst {V} (src dst x:list (positive * V)) : covers x dst -> covers x (add_missing src dst).
+Proof. intros Hx k H. rewrite lookup_add_missing. specialize (Hx k H). destruct (lookup k dst); [discriminate|congruence]. Qed.
+Lemma covers_refl {V} (x:list (positive * V)) : covers x x.
+Proof. intros k H. exact H. Qed.
+
+Lemma mix_one_fields {C} (m:list (positive * app C)) a s :
+  a_mixins (mix_one m a s) = a_mixins a /\ a_eps (mix_one m a s) = a_eps a.
+Proof. unfold mix_one. destruct (lookup s m); split; reflexivity. Qed.
+
+Lemma fold_mix_fields {C} (m:list (positive * app C)) srcs : forall a,
+  a_mixins (fold_left (mix_one m) srcs a) = a_mixins a /\ a_eps (fold_left (mix_one m) srcs a) = a_eps a.
+Proof.
+  induction srcs as [|s r IH]; intros a; [split; reflexivity|]. cbn. destruct (IH (mix_one m a s)) as [I1 I2].
+  destruct (mix_one_fields m a s) as [M1 M2]. split; congruence.
+Qed.
+
+Lemma fold_mix_covers {C} (m:list (positive * app C)) srcs : forall a,
+  (forall x:list (positive * positive), covers x (a_types a) -> covers x (a_types (fold_left (mix_one m) srcs a))) /\
+  (forall x:list (positive * positive), covers x (a_views a) -> covers x (a_views (fold_left (mix_one m) srcs a))) /\
+  (forall s sa, In s srcs -> lookup s m = Some sa ->
+     covers (a_types sa) (a_types (fold_left (mix_one m) srcs a)) /\ covers (a_views sa) (a_views (fold_left (mix_one m) srcs a))).
+Proof.
+  induction srcs as [|s0 r IH]; intros a.
+  - split; [auto|]. split; [auto|]. intros s sa [].
+  - cbn [fold_left]. destruct (IH (mix_one m a s0)) as [I1 [I2 I3]].
+    assert (Mt : forall x, covers x (a_types a) -> covers x (a_types (mix_one m a s0))).
+    { intros x Hx. unfold mix_one. destruct (lookup s0 m); [cbn; apply covers_add_dst, Hx|exact Hx]. }
+    assert (Mv : forall x, covers x (a_views a) -> covers x (a_views (mix_one m a s0))).
+    { intros x Hx. unfold mix_one. destruct (lookup s0 m); [cbn; apply covers_add_dst, Hx|exact Hx]. }
+    split; [intros x Hx; apply I1, Mt, Hx|]. split; [intros x Hx; apply I2, Mv, Hx|].
+    intros s sa [<-|Hin] Hl.
+    + split; [apply I1|apply I2]; unfold mix_one; rewrite Hl; cbn; apply covers_add_src.
+    + apply (I3 s sa Hin Hl).
+Qed.
+
+Lemma fold_mix_nil_types {C} (m:list (positive * app C)) (a:app C) :
+  a_mixins a = [] -> a_types (mix_all m a) = a_types a /\ a_views (mix_all m a) = a_views a.
+Proof. unfold mix_all. intros ->. split; reflexivity. Qed.
+
+(* mixing against a module whose sources are all covered already changes nothing *)
+Lemma fold_mix_fixed (m:pmodule) (b:app attr) srcs :
+  (forall s sb, In s srcs -> lookup s m = Some sb -> covers (a_types sb) (a_types b) /\ covers (a_views sb) (a_views b)) ->
+  fold_left (mix_one m) srcs b = b.
+Proof.
+  induction srcs as [|s r IH]; intros H; [reflexivity|].
+  cbn [fold_left]. assert (E : mix_one m b s = b).
+  { unfold mix_one. destruct (lookup s m) as [sb|] eqn:L; [|reflexivity].
+    destruct (H s sb (or_introl eq_refl) L) as [Ht Hv]. rewrite (add_missing_covered _ _ Ht), (add_missing_covered _ _ Hv).
+    destruct b; reflexivity. }
+  rewrite E. apply IH. intros s' sb Hin. apply H. right. exact Hin.
+Qed.
+
+Lemma mix_all_fixed (m:pmodule) (b:app attr) :
+  (forall s sb, In s (a_mixins b) -> lookup s m = Some sb -> covers (a_types sb) (a_types b) /\ covers (a_views sb) (a_views b)) ->
+  mix_all m b = b.
+Proof. apply fold_mix_fixed. Qed.
+
+(* ---- the condition ---- *)
+Definition app_cond (cn:positive) (a:app attr) : bool :=
+  coll_cond cn (a_eps a) && forallb (fun p => ep_sorted (snd p)) (a_eps a).
+
+(* every mixin source is an application rebuilt earlier (dk), the application itself, absent, or has no mixins of its own *)
+Fixpoint settled (dk:list positive) (todo:pmodule) : bool :=
+  match todo with
   | [] => true
-  | (k, _) :: r => Pos.ltb lo k && sorted_from k r
+  | (n, a) :: r =>
+      forallb (fun s => existsb (Pos.eqb s) dk || Pos.eqb s n ||
+                        match lookup s r with
+                        | None => true
+                        | Some sa => match a_mixins sa with [] => true | _ => false end
+                        end) (a_mixins a) && settled (dk ++ [n]) r
   end.
-Definition sorted_keys {V} (l:list (positive * V)) : bool :=
-  match l with [] => true | (k, _) :: r => sorted_from k r end.
 
-Lemma sorted_from_lt {V} lo (l:list (positive * V)) k v : sorted_from lo l = true -> lookup k l = Some v -> (lo < k)%positive.
+Definition idem_cond (cn:positive) (m:pmodule) : bool :=
+  forallb (fun p => app_cond cn (snd p)) m && settled [] m.
+
+Definition rel1 (p q:positive * app attr) : Prop :=
+  fst p = fst q /\ a_mixins (snd q) = a_mixins (snd p) /\
+  (a_mixins (snd p) = [] -> a_types (snd q) = a_types (snd p) /\ a_views (snd q) = a_views (snd p)).
+
+Lemma lookup_app_in {V} s (d x:list (positive * V)) :
+  existsb (Pos.eqb s) (map fst d) = true -> lookup s (d ++ x) = lookup s d.
 Proof.
-  revert lo. induction l as [|[k' v'] r IH]; intros lo Hs Hl; [discriminate|].
-  cbn in Hs. apply andb_true_iff in Hs. destruct Hs as [Hlt Hs]. apply Pos.ltb_lt in Hlt.
-  cbn in Hl. destruct (Pos.eqb k k') eqn:E.
-  - apply Pos.eqb_eq in E. subst. exact Hlt.
-  - eapply Pos.lt_trans; [exact Hlt|]. eapply IH; eassumption.
+  induction d as [|[k v] d IH]; [discriminate|]. cbn. destruct (Pos.eqb s k); [reflexivity|]. exact IH.
+Qed.
+Lemma lookup_app_notin {V} s (d x:list (positive * V)) :
+  existsb (Pos.eqb s) (map fst d) = false -> lookup s (d ++ x) = lookup s x.
+Proof.
+  induction d as [|[k v] d IH]; [reflexivity|]. cbn. destruct (Pos.eqb s k); [discriminate|]. exact IH.
 Qed.
 
-Lemma put_same_from {V} lo (l:list (positive * V)) k v :
-  sorted_from lo l = true -> lookup k l = Some v -> put k v l = l.
+Lemma rel_lookup r r1 s : Forall2 rel1 r r1 ->
+  match lookup s r, lookup s r1 with
+  | None, None => True
+  | Some sa, Some sb => a_mixins sa = [] -> a_types sb = a_types sa /\ a_views sb = a_views sa
+  | _, _ => False
+  end.
 Proof.
-  revert lo. induction l as [|[k' v'] r IH]; intros lo Hs Hl; [discriminate|].
-  cbn in Hs. apply andb_true_iff in Hs. destruct Hs as [Hlt Hs].
-  cbn in Hl. cbn [put]. destruct (Pos.eqb k k') eqn:E.
-  - apply Pos.eqb_eq in E. subst. congruence.
-  - pose proof (sorted_from_lt k' r k v Hs Hl) as Hk.
-    assert (Hn : Pos.ltb k k' = false) by (apply Pos.ltb_ge; apply Pos.lt_le_incl; exact Hk).
-    rewrite Hn. f_equal. eapply IH; eassumption.
+  induction 1 as [|[n a] [n' b] r r1 [Hn [_ Ht]] _ IH]; [exact I|]. cbn in Hn. subst n'. cbn.
+  destruct (Pos.eqb s n); [exact Ht|exact IH].
 Qed.
 
-Lemma put_same {V} (l:list (positive * V)) k v : sorted_keys l = true -> lookup k l = Some v -> put k v l = l.
+Lemma step_app_fields cn m a b : step_app cn m a = Some b ->
+  a_mixins b = a_mixins a /\ a_types b = a_types (mix_all m a) /\ a_views b = a_views (mix_all m a) /\
+  collector cn (a_eps a) = Some (a_eps b).
 Proof.
-  destruct l as [|[k' v'] r]; intros Hs Hl; [discriminate|].
-  cbn in Hs. cbn in Hl. cbn [put]. destruct (Pos.eqb k k') eqn:E.
-  - apply Pos.eqb_eq in E. subst. congruence.
-  - pose proof (sorted_from_lt k' r k v Hs Hl) as Hk.
-    assert (Hn : Pos.ltb k k' = false) by (apply Pos.ltb_ge; apply Pos.lt_le_incl; exact Hk).
-    rewrite Hn. f_equal. eapply put_same_from; eassumption.
+  unfold step_app. destruct (fold_mix_fields m (a_mixins a) a) as [F1 F2]. fold (mix_all m a) in F1, F2. rewrite F2.
+  destruct (collector cn (a_eps a)); [|discriminate]. intros [= <-]. cbn. auto.
 Qed.
 
-Lemma lookup_in {V} k (l:list (positive * V)) v : lookup k l = Some v -> In (k, v) l.
+Lemma post_go_spec cn : forall todo done m1,
+  post_go cn done todo = Some m1 ->
+  (forall n a, In (n, a) todo -> app_cond cn a = true) -> settled (map fst done) todo = true ->
+  exists todo', m1 = done ++ todo' /\ Forall2 rel1 todo todo' /\ (forall n b, In (n, b) todo' -> step_app cn m1 b = Some b).
 Proof.
-  induction l as [|[k' v'] r IH]; [discriminate|]. cbn. destruct (Pos.eqb k k') eqn:E.
-  - apply Pos.eqb_eq in E. subst. intros [= ->]. left. reflexivity.
-  - intros H. right. apply IH, H.
+  induction todo as [|[n a] r IH]; intros done m1 Hp Hc Hs.
+  - cbn in Hp. injection Hp as <-. exists []. rewrite app_nil_r. split; [reflexivity|]. split; [constructor|intros ? ? []].
+  - cbn [post_go] in Hp. set (M := done ++ (n, a) :: r) in *. destruct (step_app cn M a) as [b|] eqn:Es; [|discriminate].
+    cbn [settled] in Hs. apply andb_true_iff in Hs. destruct Hs as [Hsrc Hs].
+    destruct (IH (done ++ [(n, b)]) m1 Hp (fun n' a' H => Hc n' a' (or_intror H))) as [r1 [Em [Hrel Hfix]]].
+    { rewrite map_app. exact Hs. }
+    exists ((n, b) :: r1). rewrite <- app_assoc in Em. cbn [List.app] in Em. split; [exact Em|].
+    destruct (step_app_fields cn M a b Es) as [Fm [Ft [Fv Fc]]].
+    split.
+    { constructor; [|exact Hrel]. split; [reflexivity|]. split; [exact Fm|]. cbn [snd]. intros Hnil.
+      destruct (fold_mix_nil_types M a Hnil) as [T1 T2]. split; congruence. }
+    intros n' b' [[= <- <-]|Hin]; [|apply (Hfix n' b' Hin)].
+    (* the head: b against the final module *)
+    pose proof (Hc n a (or_introl eq_refl)) as Hac. unfold app_cond in Hac. apply andb_true_iff in Hac. destruct Hac as [Hcc Hso].
+    assert (Emix : mix_all m1 b = b).
+    { apply mix_all_fixed. rewrite Fm. intros s sb Hin Hl. rewrite Ft, Fv.
+      destruct (fold_mix_covers M (a_mixins a) a) as [_ [_ Cov]]. fold (mix_all M a) in Cov.
+      rewrite forallb_forall in Hsrc. specialize (Hsrc s Hin).
+      destruct (existsb (Pos.eqb s) (map fst done)) eqn:Ed.
+      - (* rebuilt earlier: the same application then and now *)
+        apply (Cov s sb Hin). unfold M. rewrite (lookup_app_in s done _ Ed). rewrite Em, (lookup_app_in s done _ Ed) in Hl. exact Hl.
+      - cbn [orb] in Hsrc. rewrite Em, (lookup_app_notin s done _ Ed) in Hl. cbn [lookup] in Hl.
+        destruct (Pos.eqb s n) eqn:En.
+        + injection Hl as <-. rewrite <- Ft, <- Fv. split; apply covers_refl.
+        + cbn [orb] in Hsrc. pose proof (rel_lookup r r1 s Hrel) as R. rewrite Hl in R.
+          destruct (lookup s r) as [sa|] eqn:Lr; [|destruct R].
+          destruct (a_mixins sa) eqn:Ems; [|discriminate]. destruct (R eq_refl) as [R1 R2]. rewrite R1, R2.
+          apply (Cov s sa Hin). unfold M. rewrite (lookup_app_notin s done _ Ed). cbn [lookup]. rewrite En. exact Lr. }
+    unfold step_app. rewrite Emix. rewrite (collector_idem cn (a_eps a) (a_eps b) Hcc Hso Fc). destruct b; reflexivity.
 Qed.
 
-Theorem post_idempotent_partial cn m :
-  sorted_keys m = true -> no_mixins m = true -> no_collector cn m = true -> post cn m = Some m.
+(* re-running the post-processing on its own result changes nothing, for every module whose collector statements
+   carry scalar attributes only and whose mixin sources are settled (plus the harness-guaranteed shape: key-sorted
+   maps, every statement has a kind) *)
+Theorem post_idempotent cn m m1 : idem_cond cn m = true -> post cn m = Some m1 -> post cn m1 = Some m1.
 Proof.
-  intros Hs Hm Hc. unfold post. generalize (map fst m) as names.
-  unfold no_mixins in Hm. unfold no_collector in Hc. rewrite forallb_forall in Hm, Hc.
-  induction names as [|n r IH]; [reflexivity|].
-  cbn [post_apps]. destruct (lookup n m) as [a|] eqn:L; [|exact IH].
-  pose proof (lookup_in _ _ _ L) as Hin.
-  specialize (Hm _ Hin). specialize (Hc _ Hin). cbn [snd] in Hm, Hc.
-  unfold mix_all. destruct a as [mx ty vw eps]. cbn [a_mixins a_eps] in *.
-  destruct mx; [|discriminate]. cbn [fold_left a_eps a_mixins a_types a_views].
-  unfold collector. destruct (lookup cn eps); [discriminate|].
-  rewrite (put_same m n _ Hs L). exact IH.
+  unfold idem_cond, post. intros H Hp. apply andb_true_iff in H. destruct H as [Hc Hs].
+  rewrite forallb_forall in Hc.
+  destruct (post_go_spec cn m [] m1 Hp (fun n a Hin => Hc (n, a) Hin) Hs) as [t' [Em [_ Hfix]]].
+  cbn [List.app] in Em. subst t'. apply post_fixed. exact Hfix.
 Qed.
 
-Example partial_nonvacuous :
-  let m : pmodule := [(10, {| a_mixins := []; a_types := [(30, 40)]; a_views := [];
-                              a_eps := [(2, {| e_attrs := [(5, AArr 6 [7])]; e_stmts := [SBlock [SCall 20 3 [(5, AVal 9)]]; SRet] |})] |})] in
-  sorted_keys m = true /\ no_mixins m = true /\ no_collector 1 m = true /\ post 1 m = Some m.
-Proof. repeat split; reflexivity. Qed.
+(* ---- both refutation witnesses are outside the condition; typical modules are inside ---- *)
+Example witnesses_outside : idem_cond 1 w_collector = false /\ idem_cond 1 w_mixin = false.
+Proof. split; vm_compute; reflexivity. Qed.
+
+(* scalar collector attributes (on an endpoint and on a nested call), A -|> B with B plain (single level),
+   and a settled chain D -|> C -|> B (every source sorted before its user) *)
+Definition ex_inside : pmodule :=
+  [(10, {| a_mixins := [11]; a_types := [(30, 40)]; a_views := [];
+           a_eps := [(1, {| e_attrs := []; e_stmts := [SAction 2 [(5, AVal 7)]; SCall 20 3 [(5, AVal 8); (6, AVal 9)]; SAction 2 [(5, AVal 8)]] |});
+                     (2, {| e_attrs := [(5, AArr 6 [7])]; e_stmts := [SAlt [SBlock [SCall 20 3 [(6, AArr 6 [7; 7])]]; SBlock [SRet]]] |})] |});
+   (11, {| a_mixins := []; a_types := [(31, 41)]; a_views := [(33, 43)]; a_eps := [(3, ep0)] |});
+   (12, {| a_mixins := [11]; a_types := [(32, 42)]; a_views := []; a_eps := [] |});
+   (13, {| a_mixins := [12]; a_types := []; a_views := []; a_eps := [] |})].
+
+Example inside_nonvacuous :
+  idem_cond 1 ex_inside = true /\
+  (exists m1, post 1 ex_inside = Some m1 /\ pmodule_eqb m1 ex_inside = false /\ post 1 m1 = Some m1).
+Proof. split; [vm_compute; reflexivity|]. eexists. split; [vm_compute; reflexivity|]. split; vm_compute; reflexivity. Qed.
+
+(* ================================================================ re-import *)
+Lemma post_go_keys cn : forall todo done m1, post_go cn done todo = Some m1 -> map fst m1 = map fst done ++ map fst todo.
+Proof.
+  induction todo as [|[n a] r IH]; intros done m1 H; cbn [post_go] in H.
+  - injection H as <-. rewrite app_nil_r. reflexivity.
+  - destruct (step_app cn (done ++ (n, a) :: r) a); [|discriminate]. rewrite (IH _ _ H), map_app, <- app_assoc. reflexivity.
+Qed.
+
+Lemma sorted_from_keys {A B} lo (a:list (positive * A)) (b:list (positive * B)) :
+  map fst a = map fst b -> sorted_from lo a = sorted_from lo b.
+Proof.
+  revert lo b. induction a as [|[k v] a IH]; intros lo [|[k' v'] b] H; try discriminate; [reflexivity|].
+  cbn in H. injection H as -> H. cbn. rewrite (IH _ _ H). reflexivity.
+Qed.
+
+Lemma post_sorted cn m m1 : post cn m = Some m1 -> sorted m = true -> sorted m1 = true.
+Proof. intros H Hs. unfold sorted. rewrite (sorted_from_keys 0%N m1 m); [exact Hs|]. apply (post_go_keys cn m [] m1 H). Qed.
+
+Lemma sorted_from_app_lt {V} (acc:list (positive * V)) k v r : forall lo,
+  sorted_from lo (acc ++ (k, v) :: r) = true -> forallb (fun p => Pos.ltb (fst p) k) acc = true.
+Proof.
+  induction acc as [|[k0 v0] acc IH]; intros lo H; [reflexivity|]. cbn in H. apply andb_true_iff in H. destruct H as [_ H].
+  cbn. rewrite (IH _ H), andb_true_r. clear IH.
+  assert (G : forall (x:list (positive * V)) l, sorted_from l (x ++ (k, v) :: r) = true -> (l < Npos k)%N).
+  { induction x as [|[k1 v1] x IHx]; intros l Hx; cbn in Hx; apply andb_true_iff in Hx; destruct Hx as [H1 H2]; apply N.ltb_lt in H1; [exact H1|].
+    specialize (IHx _ H2). lia. }
+  specialize (G acc (Npos k0) H). apply Pos.ltb_lt. lia.
+Qed.
+
+Lemma put_at_end {V} (acc:list (positive * V)) k v :
+  forallb (fun p => Pos.ltb (fst p) k) acc = true -> put k v acc = acc ++ [(k, v)] /\ lookup k acc = None.
+Proof.
+  induction acc as [|[k0 v0] acc IH]; intros H; [split; reflexivity|]. cbn in H. apply andb_true_iff in H. destruct H as [H0 H].
+  apply Pos.ltb_lt in H0. destruct (IH H) as [I1 I2]. cbn.
+  assert (E : Pos.eqb k k0 = false) by (apply Pos.eqb_neq; lia). assert (L : Pos.ltb k k0 = false) by (apply Pos.ltb_ge; lia).
+  rewrite E, L, I1. split; [reflexivity|exact I2].
+Qed.
+
+Lemma add_missing_sorted_app {V} (src:list (positive * V)) : forall acc, sorted (acc ++ src) = true -> add_missing src acc = acc ++ src.
+Proof.
+  induction src as [|[k v] r IH]; intros acc H; [rewrite app_nil_r; reflexivity|]. cbn [add_missing].
+  destruct (put_at_end acc k v (sorted_from_app_lt acc k v r _ H)) as [P1 P2]. rewrite P2, P1.
+  rewrite IH; rewrite <- app_assoc; [reflexivity|exact H].
+Qed.
+
+Section Reimport.
+  (* the wire: any encoding whose decoder inverts it (library contract; observed by the Go oracle for pb / JSON / text) *)
+  Variable code : Type.
+  Variable encode : pmodule -> code.
+  Variable decode : code -> option pmodule.
+  Hypothesis decode_encode : forall m, decode (encode m) = Some m.
+
+  (* parseSpecs on a specification that only imports the file: the listener's module is empty, mergo.Merge copies
+     every application of the decoded module into it (a key that is absent is added), then postProcess *)
+  Definition merge_apps (dst src:pmodule) : pmodule := add_missing src dst.
+  Definition reimport (cn:positive) (c:code) : option pmodule :=
+    match decode c with Some x => post cn (merge_apps [] x) | None => None end.
+
+  Theorem reimport_is_post_post cn m m1 :
+    sorted m = true -> post cn m = Some m1 -> reimport cn (encode m1) = post cn m1.
+  Proof.
+    intros Hs Hp. unfold reimport, merge_apps. rewrite decode_encode.
+    rewrite (add_missing_sorted_app m1 []); [reflexivity|]. cbn [List.app]. apply (post_sorted cn m m1 Hp Hs).
+  Qed.
+
+  (* a specification that only imports a compiled model compiles to the same applications *)
+  Theorem reimport_reproduces cn m m1 :
+    sorted m = true -> idem_cond cn m = true -> post cn m = Some m1 -> reimport cn (encode m1) = Some m1.
+  Proof. intros Hs Hc Hp. rewrite (reimport_is_post_post cn m m1 Hs Hp). apply (post_idempotent cn m m1 Hc Hp). Qed.
+End Reimport.
